@@ -465,4 +465,40 @@ theorem surplus_lands_under_positional_key_witness :
   refine ⟨_, _, rfl, rfl, ?_, ?_⟩ <;>
     simp [Bind.set, lookup, bindNamed, bindPos, bindRet, startLoop, keys, argKey, reservedNames, paramOfKey, Param.dfltVal]
 
+/-! ## Restart of an activated flow (open finding, fix proposed) -/
+
+/-- Kernel-checked counterexample for the code as it is (open finding
+    `default-not-reevaluated-on-activated-restart`): `flow fa $b=[]`, `activate fa` (argument omitted).  The
+    first instance is bound to a fresh `[]` (cell 0); it executes `($b.append(1))`; when it finishes the
+    interpreter restarts the flow with `FlowState.start_event` (`restartArgs`), which carries `b` = the
+    finished instance's object: the restarted instance's `$b` is cell 0 = `[1]`, although a fresh default
+    was allocated for it (cell 1 = `[]`, unused) and `defaults_fresh_call` would give `[]` for a call that
+    omits `b`. (finite fact, by evaluation) -/
+theorem restart_reuses_default_object_as_is_counterexample :
+    let params : List Param := [⟨"b", some (.lit (.list []))⟩]
+    let first : Inst := { flowId := "fa", arguments := [(.name "b", addr 0)], context := [(.name "b", addr 0)] }
+    let heap : Heap := [.list [.int 1]]                      -- after `($b.append(1))`
+    let ps := allocDefaults heap params
+    ∃ f0 f, createFlowInstance "fa" ps.2 [] (restartArgs first (.str "#2") (.str "#0")) = .ok f0 ∧
+      startFlow false (restartArgs first (.str "#2") (.str "#0")) f0 = .ok f ∧
+      lookup (.name "b") (derefCtx ps.1 f.context) = some (.list [.int 1]) ∧
+      (params[0]'(by decide)).dfltVal = .list [] := by
+  refine ⟨_, _, rfl, rfl, ?_, ?_⟩ <;>
+    simp [restartArgs, update, Bind.set, lookup, bindNamed, bindPos, bindRet, startLoop, keys, allocDefaults,
+      derefCtx, deref, addr, argKey, reservedNames, Param.dfltVal, eval]
+
+/-- the same scenario with the proposed repair (`restartArgsRepaired`, `default_argument_keys = ["b"]`): the
+    restarted instance is bound to the fresh default. (finite fact, by evaluation) -/
+theorem restart_repaired_witness :
+    let params : List Param := [⟨"b", some (.lit (.list []))⟩]
+    let first : Inst := { flowId := "fa", arguments := [(.name "b", addr 0)], context := [(.name "b", addr 0)] }
+    let heap : Heap := [.list [.int 1]]
+    let ps := allocDefaults heap params
+    ∃ f0 f, createFlowInstance "fa" ps.2 [] (restartArgsRepaired first [.name "b"] (.str "#2") (.str "#0")) = .ok f0 ∧
+      startFlow false (restartArgsRepaired first [.name "b"] (.str "#2") (.str "#0")) f0 = .ok f ∧
+      lookup (.name "b") (derefCtx ps.1 f.context) = some (.list []) := by
+  refine ⟨_, _, rfl, rfl, ?_⟩
+  simp [restartArgsRepaired, update, Bind.set, lookup, bindNamed, bindPos, bindRet, startLoop, keys, allocDefaults,
+    derefCtx, deref, addr, argKey, reservedNames, Param.dfltVal, eval]
+
 end NemoVerif.C08
